@@ -61,3 +61,18 @@ package core
 //@   loop 0 invariant pos: pieceLength > 0 && length == blob.pos - old(blob.pos) && length == len(pieceSums) * pieceLength && blob.pos <= blob.size && blob.size == old(blob.size) && 0 <= length
 //@   loop 0 invariant fresh_sums: cap(pieceSums) == 0 || fresh(pieceSums)
 //@   loop 0 invariant sums: forall k int :: 0 <= k && k < len(pieceSums) ==> pieceSums[k] == crcstream(rsrc(blob), old(blob.pos) + k * pieceLength, pieceLength)
+
+// Piece geometry of a metainfo: every piece is PieceLength long except the last, which holds the
+// remainder; out-of-range indexes have length 0.
+//@ specfunc miwf(mi *MetaInfo) bool = mi != nil && mi.info.PieceLength > 0 && mi.info.Length >= 0 && mi.info.Length <= 4611686018427387904 && len(mi.info.PieceSums) == npieces(mi.info.Length, mi.info.PieceLength)
+//@ func MetaInfo.GetPieceLength
+//@   requires miwf(mi)
+//@   nopanic
+//@   ensures out_of_range: (i < 0 || i >= len(mi.info.PieceSums)) ==> result == 0
+//@   ensures inner: 0 <= i && i < len(mi.info.PieceSums) - 1 ==> result == mi.info.PieceLength
+//@   ensures last: 0 <= i && i == len(mi.info.PieceSums) - 1 ==> result == mi.info.Length - mi.info.PieceLength * i && 0 < result && result <= mi.info.PieceLength
+//@   ensures layout: 0 <= i && i < len(mi.info.PieceSums) ==> result == plen(mi.info.Length, mi.info.PieceLength, i)
+
+//@ func MetaInfo.NumPieces
+//@   requires mi != nil
+//@   ensures result == len(mi.info.PieceSums)
